@@ -110,7 +110,7 @@ add(Contract("yarl._url:_encode_host", [("host", STR), ("validate_host", BOOL)],
 add(Contract("yarl._path:normalize_path", [("path", STR)], spec=spec_path.normalize_path,
              opaque=True, shape=STR, congruent=True, props=("C15", "C14", "C19")))
 add(Contract("yarl._url:encode_url", [("url_str", STR)], spec=spec_url.encode_url, raises=(ValueError,),
-             transparent=("yarl._parse:make_netloc",), shards=16, tier="thorough",
+             transparent=("yarl._parse:make_netloc",), shards=16, tier="thorough", opaque=True, shape="URL",
              memo_skip=("raw_host", "raw_user", "raw_password", "explicit_port"),
              props=("C03", "C07", "C15", "C16", "C19"),
              note="thorough tier only (minutes on 16 cores): the five stored parts refine the specification; the eager "
@@ -463,6 +463,12 @@ add(Contract("yarl._url:URL.joinpath", [("self", URLT), ("other", ("varargs", ST
 add(Lemma(spec_url.lemma_joinpath_two_steps, [("u", URLT), ("a", STR), ("b", STR), ("encoded", BOOL)],
           requires=spec_url.lemma_joinpath_requires, props=("C13",), transparent=("yarl._url:URL._make_child",),
           note="joinpath(a, b) == joinpath(a).joinpath(b), on the specification that _make_child refines"))
+
+import yarl._url as _yurl
+add(Contract("yarl._url:URL.__new__",
+             [("cls", CONST(_yurl.URL)), ("val", UNION(STR, URLT, CONST(_yurl.UNDEFINED, 1, None, b"x"))), ("encoded", BOOL), ("strict", CONST(None))],
+             spec=spec_url.new, raises=(TypeError, ValueError), props=("C19", "C07"),
+             note="constructor dispatch; encode_url / pre_encoded_url through their own contracts; SplitResult and str-subclass arguments not covered"))
 
 # ---------------------------------------------------------------- reference resolution (C14)
 add(Contract("yarl._url:URL.join", [("self", URLT), ("url", UNION(URLT, CONST(None, "x")))], spec=spec_url.join,
